@@ -22,7 +22,7 @@ RULE = ('source port trees to depth 3 over names {a, ab, abc, b, x} (so names ar
         'selects a strict subset')
 RULE += ('; also: empty namespaces, a reused options dictionary, targets below existing namespaces, a second narrower exposure of the same class, a destination port under the name of an excluded source port')
 ASSUMPTIONS = ['an empty include list is treated by the code as "no filter" and is outside the quantifier', 'reference model written from the property statement']
-REQUIRED = ['only_destination_has_own_namespace_class', 'target_had_properties_of_its_own', 'other_separator', 'deep_targets', 'path_lookups', 'deep_path_lookups', 'exposes', 'include_cases', 'exclude_cases', 'prefix_sibling_cases', 'nested_rule_cases', 'attr_checks', 'mutation_probes', 'both_rejected',
+REQUIRED = ['later_exposures', 'only_destination_has_own_namespace_class', 'target_had_properties_of_its_own', 'other_separator', 'deep_targets', 'path_lookups', 'deep_path_lookups', 'exposes', 'include_cases', 'exclude_cases', 'prefix_sibling_cases', 'nested_rule_cases', 'attr_checks', 'mutation_probes', 'both_rejected',
             'namespace_option_cases', 'preexisting_kept', 'options_reused', 're_exposures', 'own_port_under_excluded_name', 'renamed_source_ports']
 BOUNDS = {'quick': '40 trees x all single rules and pairs', 'thorough': '600 trees, rule sets up to 3'}
 NAMES = ['a', 'ab', 'abc', 'b', 'x']
@@ -511,6 +511,37 @@ def run_case(case):
     obs['mutation_probes'] += 1
     if describe(src_root) != src_now:
         viol.append(V('copy-change-shows', 'copy-change-shows:' + shape, 'changing the exposed copy changed the source spec (%s)' % _first_diff(src_now, describe(src_root))))
+    # the same class exposed once more, later, into another namespace (both specs have changed in the meantime): what is copied
+    # is the source as it is now, in copies of its own -- not what an earlier exposure copied
+    try:
+        first_copy = {k: v for k, v in describe(target_ns).items() if k != 'later_use'}
+        expose(src_cls, **dict({k: v for k, v in kwargs.items() if k != 'namespace_options'}, namespace='later_use'))
+        later = droot.get_port('later_use')
+        obs['later_exposures'] = 1
+        later_desc, src_desc_now = describe(later), describe(src_root)
+        for path, k, bad in [d for d in _attr_diffs(later_desc, src_desc_now) if d[1] == 'port'][:1]:
+            viol.append(V('later-copy-stale', 'later-copy-stale:%s' % k, 'exposed again after both specs had changed, the copied %s %s differs from the source as it is now in %s' % (k, path, bad)))
+
+        def shared(a, b, prefix=''):
+            for name, port in a.items():
+                if name in b and b[name] is port:
+                    return prefix + name
+                if isinstance(port, PortNamespace) and name in b and isinstance(b[name], PortNamespace):
+                    found = shared(port, b[name], prefix + name + '.')
+                    if found:
+                        return found
+            return None
+
+        same = shared(later, {k: v for k, v in target_ns.items() if k != 'later_use'})
+        if same:
+            viol.append(V('copies-share-port', 'copies-share-port', 'the port %s of the later exposure is the very object the first exposure put into its namespace' % same))
+        _mutate(later, tag='dst')
+        first_now = {k: v for k, v in describe(target_ns).items() if k != 'later_use'}
+        if first_now != first_copy:
+            viol.append(V('copy-change-shows', 'copy-change-shows:between-copies', 'changing the later copy changed the first one (%s)' % _first_diff(first_copy, first_now)))
+        del droot['later_use']
+    except Exception as exc:  # noqa: BLE001
+        viol.append(V('reuse-raised', 'reuse-raised:later:%s' % type(exc).__name__, 'exposing the class once more later raised %r' % exc))
     res = {'viol': judges._dedupe(viol), 'obs': obs, 'key': case, 'nontrivial': 0 < len(exp_names) < len(allp)}
     res['sample'] = {'kind': kind, 'source_paths': sorted(allp), mode: rules, 'target': case['target'], 'options': case['options'],
                      'destination_paths': sorted(real_names)}
